@@ -309,6 +309,7 @@ def write_blob(val: bytes) -> bytes:
     """
     if not val:
         raise OscTypeBuildError('Blob value cannot be empty')
+    val = bytes(val)  # Size in bytes, memoryview items may be wider.
     dgram = write_int(len(val))
     dgram += val
     while len(dgram) % _BLOB_DGRAM_PAD != 0:
